@@ -288,12 +288,12 @@ _tags = {'address', 'article', 'aside', 'base', 'basefont', 'blockquote',
 _tag   = r'[A-Za-z][A-Za-z0-9-]*'  # noqa: E221
 _attrs = r'(?:\s+[A-Za-z_:][A-Za-z0-9_.:-]*(?:\s*=\s*(?:[^\s"\'=<>`]+|\'[^\']*?\'|"[^\"]*?"))?)*'
 
-_open_tag    = r'(?<!\\)<' + _tag + _attrs + r'\s*/?>'  # noqa: E221
-_closing_tag = r'(?<!\\)</' + _tag + r'\s*>'
-_comment     = r'(?<!\\)<!--(?!>|->)(?:(?!--).)+?(?<!-)-->'  # noqa: E221
-_instruction = r'(?<!\\)<\?.+?\?>'
-_declaration = r'(?<!\\)<![A-Z].+?>'
-_cdata       = r'(?<!\\)<!\[CDATA.+?\]\]>'  # noqa: E221
+_open_tag    = r'<' + _tag + _attrs + r'\s*/?>'  # noqa: E221
+_closing_tag = r'</' + _tag + r'\s*>'
+_comment     = r'<!--(?!>|->)(?:(?!--).)+?(?<!-)-->'  # noqa: E221
+_instruction = r'<\?.+?\?>'
+_declaration = r'<![A-Z].+?>'
+_cdata       = r'<!\[CDATA.+?\]\]>'  # noqa: E221
 
 
 class HtmlSpan(SpanToken):
@@ -304,11 +304,18 @@ class HtmlSpan(SpanToken):
     Attributes:
         content (str): the raw HTML content.
     """
-    pattern = re.compile('|'.join([_open_tag, _closing_tag, _comment,
-                                   _instruction, _declaration, _cdata]),
-                                   re.DOTALL)
+    # the token proper; escaped backslashes may stand before it
+    tag_pattern = re.compile('|'.join([_open_tag, _closing_tag, _comment,
+                                       _instruction, _declaration, _cdata]),
+                                       re.DOTALL)
+    pattern = re.compile(r'(?<!\\)(?:\\\\)*(?:' + tag_pattern.pattern + ')', re.DOTALL)
     parse_inner = False
     parse_group = 0
+
+    @classmethod
+    def find(cls, string):
+        return [cls.tag_pattern.match(string, match.start() + match.group(0).index('<'))
+                for match in cls.pattern.finditer(string)]
 
 
 HTMLSpan = HtmlSpan
